@@ -135,58 +135,74 @@ theorem innerClose_spec (s : St) (script : List (Resp TExc)) (o : COut TExc) (s3
     (1) every exit path: whatever the SSL object and the wrapped transport answer (errors, cancellation, the shutdown
         timeout firing at any await), after a first `aclose()` the closing flag and the closed event are set and the wrapped
         transport's close was requested;
-    (2) standard-compatible mode, wrapped transport not closing: `unwrap()` is the first call made, and — by UnwrapLaw, its
-        first call having appended `out > 0` bytes ending with the alert record — the SECOND call is
-        `transport.send_all(<all pending output, ending with the alert>)`: the alert is handed to the wrapped transport before
-        any close call of it (which can only come later in the call list);
+    (2) standard-compatible mode, wrapped transport not closing, for EVERY engine script whose first `unwrap()` call left
+        `out > 0` bytes ending with the alert record in the outgoing BIO (UnwrapLaw) — whether that call then returned, wanted
+        I/O (`UnwrapAns`), or FAILED with an SSL error (`UnwrapFail`: e.g. OpenSSL's "application data after close notify" when
+        data received from the peer is still unread): the call list is `ssl.unwrap`, at most the two BIO eof marks (of the
+        retry loop's `except SSLError`), then `transport.send_all(<all pending output, ending with the alert>)` — the alert is
+        handed to the wrapped transport before ANY close call of it (which can only come later in the call list).
+        This needs the clause `except SSLError: with suppress(OSError): await self.__flush_pending_writes()` in `aclose`:
+        the generated table must say `acloseFlushesOnSslError = true` (first conjunct of (2); on a tree without the clause
+        this theorem does not check, and `C09_close_notify_lost_without_flush_clause` below shows what happens instead);
     (3) when that `aclose()` meets no failure (the peer answers, nothing raises) it ends normally with the graceful
-        `transport.aclose()` as its last call. -/
+        `transport.aclose()` as its last call;
+    (4) the failing-unwrap exchange, exactly: `unwrap()` writes the alert and raises `SSLError`; the alert is sent, the BIOs
+        are marked, the wrapped transport is closed gracefully, `aclose()` returns normally. -/
 theorem C09_close_sends_notify :
     (∀ (sc : Bool) (s : St) (script : List (Resp TExc)) (o : COut TExc) (s' : St) (rest : List (Resp TExc)) (calls : List Call),
       aclose tables sc s script = some (o, s', rest, calls) → s.closing = false →
       s'.closing = true ∧ s'.closedEv = true ∧ s'.innerClosing = true) ∧
-    (∀ (s : St) (a : SslAns TExc) (out : Nat) (rest0 : List (Resp TExc)) (o : COut TExc) (s' : St) (rest : List (Resp TExc))
-      (calls : List Call), s.closing = false → s.innerClosing = false → 0 < out → UnwrapAns a →
+    (tables.acloseFlushesOnSslError = true ∧
+     ∀ (s : St) (a : SslAns TExc) (out : Nat) (rest0 : List (Resp TExc)) (o : COut TExc) (s' : St) (rest : List (Resp TExc))
+      (calls : List Call), s.closing = false → s.innerClosing = false → 0 < out → (UnwrapAns a ∨ UnwrapFail a) →
       aclose tables true s (.ssl a out true :: rest0) = some (o, s', rest, calls) →
-      ∃ tail, calls = .ssl .unwrap :: .send (s.wpend + out) true :: tail) ∧
+      ∃ pre tail, calls = .ssl .unwrap :: (pre ++ .send (s.wpend + out) true :: tail) ∧ (pre = [] ∨ pre = [.rbioEof, .wbioEof])) ∧
     (∀ (s : St) (k : Nat), s.closing = false → s.innerClosing = false → s.wpend = 0 →
       aclose tables true s [.ssl (.raise tables.wantReadCls false) (k + 1) true, .tr .ok, .tr (.n k), .ssl (.ret 0) 0 false, .tr .ok]
         = some (.ok, { wpend := 0, walert := false, rEof := true, wEof := true, fed := s.fed + (k + 1), closing := true,
                        closedEv := true, innerClosing := true }, [],
-            [.ssl .unwrap, .send (k + 1) true, .recvInto, .rbioWrite (k + 1), .ssl .unwrap, .rbioEof, .wbioEof, .innerClose])) := by
-  refine ⟨?_, ?_, ?_⟩
+            [.ssl .unwrap, .send (k + 1) true, .recvInto, .rbioWrite (k + 1), .ssl .unwrap, .rbioEof, .wbioEof, .innerClose])) ∧
+    (∀ (s : St) (k : Nat) (p : Bool), s.closing = false → s.innerClosing = false →
+      aclose tables true s [.ssl (.raise tables.sslError p) (k + 1) true, .tr .ok, .tr .ok]
+        = some (.ok, { wpend := 0, walert := false, rEof := true, wEof := true, fed := s.fed, closing := true,
+                       closedEv := true, innerClosing := true }, [],
+            [.ssl .unwrap, .rbioEof, .wbioEof, .send (s.wpend + (k + 1)) true, .rbioEof, .wbioEof, .innerClose])) := by
+  have g1 : tables.acloseGuardSC = true := by decide
+  have g2 : tables.acloseUnwraps = true := by decide
+  have g3 : tables.acloseMarksEof = true := by decide
+  have g4 : tables.acloseForceOnFail = true := by decide
+  have g5 : tables.acloseFinalClose = true := by decide
+  refine ⟨?_, ⟨by decide, ?_⟩, ?_, ?_⟩
   · intro sc s script o s' rest calls h hc
     unfold aclose at h
     simp only [hc, Bool.false_eq_true, if_false] at h
-    have g1 : tables.acloseGuardSC = true := by decide
-    have g2 : tables.acloseUnwraps = true := by decide
-    have g3 : tables.acloseMarksEof = true := by decide
-    have g4 : tables.acloseForceOnFail = true := by decide
-    have g5 : tables.acloseFinalClose = true := by decide
     simp only [g1, g2, g3, g4, g5, Bool.not_true, Bool.or_false, Bool.and_true, if_true] at h
     split at h
     · -- unwrap path
       split at h
       · simp at h
-      · rename_i r s2 rest2 calls2 hr
-        have F := retry_frame tables .unwrap _ _ _ _ _ _ _ hr
+      · rename_i s2 rest2 calls2 hr
+        have F := acloseUnwrap_frame tables _ _ _ _ _ _ _ hr
         have hcl : s2.closing = true := by
           have := congrArg (·.1) F; simpa [St.ctl] using this
         split at h
-        · split at h
-          · simp at h
-          · rename_i o3 s3 rest3 calls3 hi
-            have I := innerClose_spec _ _ _ _ _ _ hi
-            simp only [Option.some.injEq, Prod.mk.injEq] at h
-            obtain ⟨_, hs, _, _⟩ := h
-            subst hs
-            refine ⟨?_, rfl, I.1⟩
-            show s3.closing = true
-            rw [I.2.1]; simpa [markBoth] using hcl
-        · simp only [Option.some.injEq, Prod.mk.injEq] at h
+        · simp at h
+        · rename_i o3 s3 rest3 calls3 hi
+          have I := innerClose_spec _ _ _ _ _ _ hi
+          simp only [Option.some.injEq, Prod.mk.injEq] at h
           obtain ⟨_, hs, _, _⟩ := h
           subst hs
-          exact ⟨by simpa [force] using hcl, rfl, rfl⟩
+          refine ⟨?_, rfl, I.1⟩
+          show s3.closing = true
+          rw [I.2.1]; simpa [markBoth] using hcl
+      · rename_i x s2 rest2 calls2 hr
+        have F := acloseUnwrap_frame tables _ _ _ _ _ _ _ hr
+        have hcl : s2.closing = true := by
+          have := congrArg (·.1) F; simpa [St.ctl] using this
+        simp only [Option.some.injEq, Prod.mk.injEq] at h
+        obtain ⟨_, hs, _, _⟩ := h
+        subst hs
+        exact ⟨by simpa [force] using hcl, rfl, rfl⟩
     · split at h
       · simp at h
       · rename_i o3 s3 rest3 calls3 hi
@@ -197,49 +213,84 @@ theorem C09_close_sends_notify :
         exact ⟨by show s3.closing = true; rw [I.2.1], rfl, I.1⟩
   · intro s a out rest0 o s' rest calls hc hi hout ha h
     unfold aclose at h
-    have g1 : tables.acloseGuardSC = true := by decide
-    have g2 : tables.acloseUnwraps = true := by decide
-    simp only [hc, hi, g1, g2, Bool.false_eq_true, if_false, Bool.not_true, Bool.or_false, Bool.not_false, Bool.and_true,
+    simp only [hc, hi, g1, g2, g3, g4, g5, Bool.false_eq_true, if_false, Bool.not_true, Bool.or_false, Bool.not_false, Bool.and_true,
       if_true, List.length_cons] at h
     split at h
     · simp at h
-    · rename_i r s2 rest2 calls2 hr
-      obtain ⟨tail, ht⟩ := retry_unwrap_first _ _ a out hout rest0 ha r s2 rest2 calls2 hr
+    · rename_i s2 rest2 calls2 hr
+      obtain ⟨pre, tail, ht, hp⟩ := acloseUnwrap_alert_sent _ _ a out hout rest0 ha _ _ _ _ hr
       subst ht
       split at h
-      · split at h
-        · split at h
-          · simp at h
-          · simp only [Option.some.injEq, Prod.mk.injEq] at h
-            obtain ⟨_, _, _, hcalls⟩ := h
-            subst hcalls
-            first | (simp only [List.cons_append]; exact ⟨_, rfl⟩) | exact ⟨_, rfl⟩
-        · simp only [Option.some.injEq, Prod.mk.injEq] at h
-          obtain ⟨_, _, _, hcalls⟩ := h
-          subst hcalls
-          first | (simp only [List.cons_append]; exact ⟨_, rfl⟩) | exact ⟨_, rfl⟩
-      · split at h
-        · simp only [Option.some.injEq, Prod.mk.injEq] at h
-          obtain ⟨_, _, _, hcalls⟩ := h
-          subst hcalls
-          first | (simp only [List.cons_append]; exact ⟨_, rfl⟩) | exact ⟨_, rfl⟩
-        · simp only [Option.some.injEq, Prod.mk.injEq] at h
-          obtain ⟨_, _, _, hcalls⟩ := h
-          subst hcalls
-          first | (simp only [List.cons_append]; exact ⟨_, rfl⟩) | exact ⟨_, rfl⟩
+      · simp at h
+      · rename_i o3 s3 rest3 calls3 hi3
+        simp only [Option.some.injEq, Prod.mk.injEq] at h
+        obtain ⟨_, _, _, hcalls⟩ := h
+        subst hcalls
+        exact ⟨pre, tail ++ ([Call.rbioEof, Call.wbioEof] ++ calls3), by simp, hp⟩
+    · rename_i x s2 rest2 calls2 hr
+      obtain ⟨pre, tail, ht, hp⟩ := acloseUnwrap_alert_sent _ _ a out hout rest0 ha _ _ _ _ hr
+      subst ht
+      simp only [Option.some.injEq, Prod.mk.injEq] at h
+      obtain ⟨_, _, _, hcalls⟩ := h
+      subst hcalls
+      exact ⟨pre, tail ++ (force s2).2, by simp, hp⟩
   · intro s k hc hi hp
-    have g1 : tables.acloseGuardSC = true := by decide
-    have g2 : tables.acloseUnwraps = true := by decide
-    have g3 : tables.acloseMarksEof = true := by decide
-    have g5 : tables.acloseFinalClose = true := by decide
-    simp [aclose, hc, hi, hp, g1, g2, g3, g5, retry, fact_want, fact_wantflush, flush, sendPending, addOut,
+    simp [aclose, acloseUnwrap, hc, hi, hp, g1, g2, g3, g5, retry, fact_want, fact_wantflush, flush, sendPending, addOut,
       innerClose, markBoth]
+  · intro s k p hc hi
+    have ha : retryAct tables tables.retryClauses tables.sslError = some .markEofReraise := by decide
+    have hf : ∀ q, sslFlushCaught tables (.cls tables.sslError q) = true := by intro q; rfl
+    simp [aclose, acloseUnwrap, hc, hi, g1, g2, g3, g5, retry, ha, hf, flush, sendPending, addOut, innerClose, markBoth]
 
 /-- non-vacuity of (1): the shutdown timeout fires while waiting for the peer's close_notify — `aclose()` returns normally,
     the alert had been handed over, the wrapped transport was closed forcefully -/
 example : (aclose tables true {} [.ssl (.raise .ssl_SSLWantReadError false) 24 true, .tr .ok, .tr .timeout]).map
     (fun r => (r.2.2.2, r.2.1.innerClosing, r.2.1.closedEv)) =
     some ([.ssl .unwrap, .send 24 true, .recvInto, .innerForce], true, true) := by decide +kernel
+
+/-- non-vacuity of (2), failing case: every SSL error class other than WANT_READ / WANT_WRITE is an `UnwrapFail` answer;
+    application data is unread, `unwrap()` writes the 24-byte alert and raises: the alert is sent before the close; the same
+    when the flush itself fails (`OSError` suppressed) or is cancelled (forced close, after the send was attempted) -/
+example : UnwrapFail (.raise .ssl_SSLError false) ∧ UnwrapFail (.raise .ssl_SSLEOFError true) ∧
+    UnwrapFail (.raise .ssl_SSLZeroReturnError false) ∧ UnwrapFail (.raise .ssl_SSLSyscallError false) :=
+  ⟨⟨_, _, rfl, by decide⟩, ⟨_, _, rfl, by decide⟩, ⟨_, _, rfl, by decide⟩, ⟨_, _, rfl, by decide⟩⟩
+
+example : (aclose tables true {} [.ssl (.raise .ssl_SSLError false) 24 true, .tr .ok, .tr .ok]).map (fun r => (r.1.isOk, r.2.2.2)) =
+      some (true, [.ssl .unwrap, .rbioEof, .wbioEof, .send 24 true, .rbioEof, .wbioEof, .innerClose]) ∧
+    (aclose tables true {} [.ssl (.raise .ssl_SSLEOFError true) 31 true, .tr (.raise .builtins_BrokenPipeError), .tr .ok]).map
+      (fun r => (r.1.isOk, r.2.2.2)) =
+      some (true, [.ssl .unwrap, .rbioEof, .wbioEof, .send 31 true, .rbioEof, .wbioEof, .innerClose]) ∧
+    (aclose tables true {} [.ssl (.raise .ssl_SSLZeroReturnError false) 24 true, .tr .cancel]).map (fun r => (r.1.isOk, r.2.2.2)) =
+      some (false, [.ssl .unwrap, .rbioEof, .wbioEof, .send 24 true, .innerForce]) := by decide +kernel
+
+/-- the table the translator emits for a tree whose `aclose()` has only `except OSError: pass` around the unwrap -/
+def tablesNoFlush : Tables TExc :=
+  { tables with acloseFlushesOnSslError := false, acloseFlushOn := [], acloseFlushSuppress := [] }
+
+/-- **The defect without the flush clause** (negative result; `tablesNoFlush` = the generated table of a tree whose `aclose()`
+    lacks `except SSLError: … __flush_pending_writes()`): data received from the peer is unread, `unwrap()` writes the alert
+    (`k + 1` bytes) into the outgoing BIO and raises `SSLError`; the retry loop marks the BIOs and re-raises, `except OSError:
+    pass` drops the error, the wrapped transport is closed — `aclose()` returns normally, NO `send_all` call was made, and the
+    alert is still in the outgoing BIO (`wpend`, `walert`): the close notification is produced but never sent. -/
+theorem C09_close_notify_lost_without_flush_clause (s : St) (k : Nat) (p : Bool) (hc : s.closing = false)
+    (hi : s.innerClosing = false) :
+    ∃ s', aclose tablesNoFlush true s [.ssl (.raise .ssl_SSLError p) (k + 1) true, .tr .ok] =
+        some (.ok, s', [], [.ssl .unwrap, .rbioEof, .wbioEof, .rbioEof, .wbioEof, .innerClose]) ∧
+      s'.wpend = s.wpend + (k + 1) ∧ s'.walert = true ∧ s'.innerClosing = true := by
+  have ha : retryAct tablesNoFlush tablesNoFlush.retryClauses .ssl_SSLError = some .markEofReraise := by decide
+  have hs : ∀ q, swallowed tablesNoFlush (.cls .ssl_SSLError q) = true := by intro q; rfl
+  have hf : ∀ q, sslFlushCaught tablesNoFlush (.cls .ssl_SSLError q) = false := by intro q; rfl
+  have g1 : tablesNoFlush.acloseGuardSC = true := by decide
+  have g2 : tablesNoFlush.acloseUnwraps = true := by decide
+  have g3 : tablesNoFlush.acloseMarksEof = true := by decide
+  have g5 : tablesNoFlush.acloseFinalClose = true := by decide
+  refine ⟨{ wpend := s.wpend + (k + 1), walert := true, rEof := true, wEof := true, fed := s.fed, closing := true,
+            closedEv := true, innerClosing := true }, ?_, rfl, rfl, rfl⟩
+  simp [aclose, acloseUnwrap, hc, hi, g1, g2, g3, g5, retry, ha, hs, hf, innerClose, markBoth, addOut]
+
+example : (aclose tablesNoFlush true {} [.ssl (.raise .ssl_SSLError false) 24 true, .tr .ok]).map
+    (fun r => (r.1.isOk, r.2.1.wpend, r.2.1.walert, r.2.2.2)) =
+    some (true, 24, true, [.ssl .unwrap, .rbioEof, .wbioEof, .rbioEof, .wbioEof, .innerClose]) := by decide +kernel
 
 /-! ### blocking transport -/
 
